@@ -156,6 +156,23 @@ def run_readers(path, outdir):
     return out
 
 
+def decompressed(b):
+    """Bytes the gzip stream `b` (possibly several members, possibly cut short) decompresses to."""
+    import zlib
+
+    out, data = b"", b
+    while data:
+        d = zlib.decompressobj(31)
+        try:
+            out += d.decompress(data)
+        except zlib.error:
+            return out
+        if not d.eof:
+            return out
+        data = d.unused_data
+    return out
+
+
 def prefix_work(item):
     kind, lo, hi = item
     d = traces.scratch("c20_")
@@ -170,6 +187,7 @@ def prefix_work(item):
         with open(path, "wb") as fh:
             fh.write(stream)
         full = run_readers(path, outdir)
+        payload = decompressed(stream)
         for name, r in full.items():
             if r[0] != "OUT":
                 res["problems"].append({"what": "reader %s fails on the complete file: %s" % (name, r[1]), "prefix": len(stream)})
@@ -183,8 +201,10 @@ def prefix_work(item):
                 if r[0] == "EXC":
                     res["raised"] += 1
                     res["exc_types"][r[1]] = res["exc_types"].get(r[1], 0) + 1
+                elif r[1] == full[name][1] and decompressed(stream[:L]) == payload:
+                    res["identical"] += 1  # only check sums / trailer bytes are missing: every written entry is in the prefix
                 elif r[1] == full[name][1]:
-                    res["identical"] += 1
+                    res["problems"].append({"what": "reader %s produced the complete file's results from a trace cut at byte %d of %d, which does not contain all of the written data" % (name, L, len(stream)), "prefix": L})
                 else:
                     res["problems"].append({"what": "reader %s produced results from a trace cut at byte %d of %d that differ from the complete file's" % (name, L, len(stream)), "prefix": L})
     except Exception as e:
@@ -237,7 +257,8 @@ def stream_len(kind):
 def main(tier, seed):
     chk = Check("C20", tier, seed, level="fault_enumeration")
     chk.rule = ("traces {one chain, two chains, clustered, six chains, nine chains (chain 0 written last), one chain of 1101 entries} written by the real create_main_run_output into an in-memory device; EVERY byte prefix 0..len-1 read by "
-                "write_map_results, write_consensus_results and write_topology_report (must raise, or give output byte-identical to the complete file's); ENOSPC "
+                "write_map_results, write_consensus_results and write_topology_report in one process and at one path, after the complete file was read there (must raise, or - only when the prefix "
+                "still decompresses to the complete payload - give output byte-identical to the complete file's); ENOSPC "
                 "injected at EVERY write-call boundary of the writer; a case is non-trivial when the prefix is non-empty")
     chk.assumptions = ["gzip header time stamp fixed to 0 so the stream is reproducible", "crash = truncation at a byte; torn writes inside one write call are covered because every byte prefix is enumerated"]
     kinds = ["one-chain", "two-chains", "clustered", "six-chains", "nine-chains"] + (["four-chains", "many-entries", "big-data"] if tier == "thorough" else [])
